@@ -68,11 +68,12 @@ func VerifC09RemovedStaysRemoved() {
 	blob.deleteFails = vrt.Bool("blobDeletionFails")
 	blob.crashy = true
 	crashed := vrt.Run(func() { sh.VerifGC(w.epoch.E) })
+	deletionDisturbed := crashed || blob.deleteFails
 	blob.crashy, blob.deleteFails = false, false
 	if crashed {
 		vrt.Reach("crashed")
 	}
-	if _, still := blob.data[obj.Address()]; still {
+	if _, still := blob.data[obj.Address()]; still && deletionDisturbed {
 		if has, _ := sh.VerifMeta().Exists(obj.Address(), true); !has {
 			orphan = true
 		}
